@@ -40,7 +40,31 @@ func main() {
 	evid := flag.String("evidence", "", "evidence file to write")
 	knownPath := flag.String("known", "", "known findings file")
 	list := flag.Bool("list", false, "list registered properties")
+	dump := flag.Bool("dump-funcs", false, "print the key of every function declared in the module (reference list for the inliner)")
 	flag.Parse()
+	if *dump {
+		pkgs, err := loadPkgs(*repo, "", nil)
+		if err != nil {
+			fmt.Fprintln(os.Stderr, err)
+			os.Exit(2)
+		}
+		seen := map[string]bool{}
+		for _, tags := range []string{"", "mobile"} {
+			if tags != "" {
+				if pkgs, err = loadPkgs(*repo, tags, nil); err != nil {
+					fmt.Fprintln(os.Stderr, err)
+					os.Exit(2)
+				}
+			}
+			for _, k := range dumpFuncs(pkgs) {
+				if !seen[k] {
+					seen[k] = true
+					fmt.Println(k)
+				}
+			}
+		}
+		return
+	}
 
 	if *list {
 		var ids []string
@@ -115,7 +139,11 @@ func main() {
 			cfgInfo = append(cfgInfo, map[string]interface{}{
 				"tags": tags, "packages": len(p.Pkgs), "functions_total": len(p.All), "functions_module": len(p.Mod),
 				"callgraph": "VTA over CHA (golang.org/x/tools/go/callgraph/vta)", "load_s": p.LoadS, "ssa_s": p.SSAS, "callgraph_s": p.CGS,
+				"functions_not_in_reference_tree": p.Inlined, "inlining_failed": p.InlineFail,
 			})
+			if p.InlineFail != "" {
+				r.Note("source-level inlining of new helpers failed (%s): analysed without it", p.InlineFail)
+			}
 		}
 	}()
 	cov := map[string]interface{}{"configs": cfgInfo}
